@@ -183,6 +183,28 @@ func runCaseFull(c *Case) (tr Trace) {
 			case "invoke":
 				ot.Verdict = guard(func() error { return apis[op.Scope].invoke(v) })
 			}
+		case "rawprovide", "rawdecorate", "rawinvoke":
+			v, err := rawValue(*op.Raw)
+			if err != nil {
+				tr.Err = "unbuildable: " + err.Error()
+				return tr
+			}
+			switch op.Op {
+			case "rawprovide":
+				var info dig.ProvideInfo
+				po := rawProvideOptions(*op.Opts)
+				po = append(po, dig.FillProvideInfo(&info))
+				ot.Verdict = guard(func() error { return apis[op.Scope].provide(v, po...) })
+				ot.Info = &Info{Inputs: strs(info.Inputs), Outputs: strs(info.Outputs)}
+			case "rawdecorate":
+				var info dig.DecorateInfo
+				ot.Verdict = guard(func() error { return apis[op.Scope].decorate(v, dig.FillDecorateInfo(&info)) })
+				ot.Info = &Info{Inputs: strs(info.Inputs), Outputs: strs(info.Outputs)}
+			case "rawinvoke":
+				var info dig.InvokeInfo
+				ot.Verdict = guard(func() error { return apis[op.Scope].invoke(v, dig.FillInvokeInfo(&info)) })
+				ot.Info = &Info{Inputs: strs(info.Inputs), Outputs: []string{}}
+			}
 		default:
 			tr.Err = "unknown op " + op.Op
 			return tr
